@@ -1,5 +1,6 @@
 import SV.Driver.Util
 import SV.Model.Store
+import SV.Model.StoreFs
 /-
 svdriver_c16: line protocol for the C16 model (SV.Store).  Digests and references travel as the
 small indices the harness assigns to them.
@@ -14,6 +15,14 @@ small indices the harness assigns to them.
   ncreate <ref> <toc>                   -> enoent                 layernode.Create("use")
   nrmdir <ref> <toc>                    -> enoent | eio           refnode.Rmdir
   snap                                  -> L=.. C=.. M=.. D=.. P=.. K=..
+FUSE node layer of store/fs.go (SV.StoreFs; the LayerManager state is shared with the ops above):
+  sfs-reset                             -> ok          fresh LayerManager + fresh node tree
+  sfs-lookup <node> <name> <mf> <bits>  -> ok <node> <ino> | einval | eio | enoent | badreq
+  sfs-forget <node> <n>                 -> ok | badreq
+  sfs-create <node> <name>              -> enoent | erofs | badreq
+  sfs-rmdir <node> <name>               -> enoent | eio | einval | ok | badreq
+  sfs-snap                              -> N=.. Y=.. T=.. H=.. X=..   (nodeMap, layerMap, tree, held nodes, clash)
+<name>: r<ref> | pool | t<toc> | diff | info | blob | use | other | bad; <ino> of a diff dir: d<layerMap id>.
 <mf> is the registry's answer for the manifest (0/1), <bits> one 0/1 per manifest layer ("-" if none).
 -/
 namespace SV.Driver.C16
@@ -22,6 +31,7 @@ open SV.Driver SV.Store
 structure DSt where
   truth : List (Ref × List (LDigest × Toc)) := []
   st : St := {}
+  fs : SV.StoreFs.St := {}
 
 def truthOf (d : DSt) : Truth :=
   ⟨fun r => (d.truth.find? (fun p => p.1 == r)).map (·.2)⟩
@@ -73,6 +83,111 @@ def snap (s : St) : String :=
   let ps := (sortBy (fun (a b : Nat × Int) => decide (a.1 < b.1)) s.pool).map fun e => s!"{e.1}={e.2}"
   let ks := (sortBy (fun a b => decide (a < b)) s.disk).map toString
   s!"L={joinOr ls} C={joinOr cs} M={joinOr ms} D={joinOr ds} P={joinOr ps} K={joinOr ks}"
+
+/-! ### FUSE node layer (SV.StoreFs) -/
+
+def parseName? (w : String) : Option SV.StoreFs.Name :=
+  if w = "pool" then some .pool
+  else if w = "diff" then some (.leaf .diff)
+  else if w = "info" then some (.leaf .info)
+  else if w = "blob" then some (.leaf .blob)
+  else if w = "use" then some (.leaf .use)
+  else if w = "other" then some (.leaf .other)
+  else if w = "bad" then some .bad
+  else if w.startsWith "r" then (parseNat? (w.drop 1).toString).map .ref
+  else if w.startsWith "t" then (parseNat? (w.drop 1).toString).map .toc
+  else none
+
+def showName : SV.StoreFs.Name → String
+  | .ref r => s!"r{r}"
+  | .pool => "pool"
+  | .toc t => s!"t{t}"
+  | .leaf .diff => "diff"
+  | .leaf .info => "info"
+  | .leaf .blob => "blob"
+  | .leaf .use => "use"
+  | .leaf .other => "other"
+  | .bad => "bad"
+
+def showIno (n : SV.StoreFs.Node) : String :=
+  match n.kind with
+  | .diff b => s!"d{b}"
+  | _ => toString n.ino
+
+def showRes (s : SV.StoreFs.St) : SV.StoreFs.Res → String
+  | .entry i _ =>
+    match SV.StoreFs.node? s i with
+    | some n => s!"ok {i} {showIno n}"
+    | none => s!"ok {i} ?"
+  | .ok => "ok"
+  | .einval => "einval"
+  | .eio => "eio"
+  | .enoent => "enoent"
+  | .erofs => "erofs"
+  | .badreq => "badreq"
+
+/-- path of a node from the root (`none`: detached). -/
+def pathOf (s : SV.StoreFs.St) : Nat → SV.StoreFs.Node → Option String
+  | 0, _ => none
+  | f + 1, n =>
+    match n.parent with
+    | none => none
+    | some p =>
+      if p = SV.StoreFs.rootId then some (showName n.name)
+      else match SV.StoreFs.node? s p with
+        | some pn => (pathOf s f pn).map fun q => q ++ "/" ++ showName n.name
+        | none => none
+
+def sortStr (xs : List String) : List String := sortBy (fun a b => decide (a < b)) xs
+
+def fsSnap (s : SV.StoreFs.St) : String :=
+  let nm := (sortBy (fun a b => decide (a < b)) s.nodeMap).map toString
+  let ym := (sortBy (fun a b => decide (a < b)) s.layerMap).map toString
+  let tr := sortStr (s.nodes.filterMap fun n => (pathOf s 4 n).map fun p => s!"{p}={showIno n}")
+  let hd := (sortBy (fun (a b : Nat × Nat) => decide (a.1 < b.1))
+    ((s.nodes.filter fun n => n.lookups > 0).map fun n => (n.id, n.lookups))).map fun e => s!"{e.1}:{e.2}"
+  s!"N={joinOr nm} Y={joinOr ym} T={joinOr tr} H={joinOr hd} X={if s.clash then 1 else 0}"
+
+/-- the image a request on node `p` concerns (for the registry oracle of the op line). -/
+def refOfNode (s : SV.StoreFs.St) (p : Nat) : Option Nat :=
+  match SV.StoreFs.node? s p with
+  | some n => match n.kind with
+    | .layer r _ => some r
+    | _ => none
+  | none => none
+
+def fsStep (d : DSt) (op : SV.StoreFs.Op) : DSt × String :=
+  let s0 : SV.StoreFs.St := { d.fs with lm := d.st }
+  let (s, res) := SV.StoreFs.step (truthOf d) s0 op
+  ({ d with st := s.lm, fs := s }, showRes s res)
+
+def sfs (d : DSt) : List String → DSt × String
+  | ["sfs-reset"] => ({ d with st := {}, fs := {} }, "ok")
+  | ["sfs-lookup", p, nm, mf, bits] =>
+    match parseNat? p, parseName? nm, parseBit? mf, parseBits? bits with
+    | some p, some nm, some mf, some bits =>
+      let s0 : SV.StoreFs.St := { d.fs with lm := d.st }
+      match refOfNode s0 p with
+      | some r =>
+        match mkOracle? d r mf bits with
+        | some o => fsStep d (.lookup o p nm)
+        | none => (d, "bad-op")
+      | none => fsStep d (.lookup Oracle.healthy p nm)
+    | _, _, _, _ => (d, "bad-op")
+  | ["sfs-forget", i, n] =>
+    match parseNat? i, parseNat? n with
+    | some i, some n => fsStep d (.forget i n)
+    | _, _ => (d, "bad-op")
+  | ["sfs-create", p, nm] =>
+    match parseNat? p, parseName? nm with
+    | some p, some nm => fsStep d (.create p nm)
+    | _, _ => (d, "bad-op")
+  | ["sfs-rmdir", p, nm] =>
+    match parseNat? p, parseName? nm with
+    | some p, some nm => fsStep d (.rmdir p nm)
+    | _, _ => (d, "bad-op")
+  | ["sfs-snap"] => (d, fsSnap { d.fs with lm := d.st })
+  | _ => (d, "bad-op")
 
 def step (d : DSt) : List String → DSt × String
   | "image" :: r :: ls =>
@@ -155,6 +270,7 @@ def step (d : DSt) : List String → DSt × String
       | (s, _) => ({ d with st := s }, "eio")
     | _, _ => (d, "bad-op")
   | ["snap"] => (d, snap d.st)
+  | w :: ws => if w.startsWith "sfs-" then sfs d (w :: ws) else (d, "bad-op")
   | _ => (d, "bad-op")
 
 end SV.Driver.C16
